@@ -208,10 +208,14 @@ def run_h2d(osy, case, threads=1, capture=None):
     ux, uy = case.get("units", ["", ""])
     X = osy.Array(values=x, unit=ux, name="xq")
     Y = osy.Array(values=y, unit=uy, name="yq")
-    layers = []
+    layers, arrs = [], []
     for i, op in enumerate(case.get("ops", [])):
         vdt = {"f8": np.float64, "f4": np.float32, "i8": np.int64, "i4": np.int32, "i2": np.int16}[case.get("vdtype", "f8")]
         arr = osy.Array(values=v[i].astype(vdt), unit="", name=f"layer{i}")
+        src = (case.get("share") or {}).get(str(i))
+        if src is not None and src < len(arrs):
+            arr = arrs[src]          # the very same Array object in two layers (mean of it as image, sum of it as contours)
+        arrs.append(arr)
         layers.append(arr if op is None else osy.core.Layer(arr, operation=op))
     kw = {"resolution": case["res"], "plot": False, "logx": bool(case.get("logx")), "logy": bool(case.get("logy"))}
     if case.get("res_xy"):
@@ -426,6 +430,21 @@ def gen_kernel_tol(r, npts, style=None):
 
 
 def gen_h2d(r, npts, lane):
+    c = gen_h2d_(r, npts, lane)
+    nl = len(c.get("ops") or [])
+    if nl >= 2 and r.random() < 0.6:
+        # two layers built on one and the same Array object, with their own operations
+        i = r.randrange(1, nl)
+        j = r.randrange(0, i)
+        c["values"][i] = list(c["values"][j])
+        c["share"] = {str(i): j}
+        c["ops"][j] = r.choice(["mean", "mean", "mean", "sum", None])
+        c["ops"][i] = r.choice(["sum", "sum", "mean", None])
+        c["tags"] = list(c.get("tags", [])) + ["shared_array"]
+    return c
+
+
+def gen_h2d_(r, npts, lane):
     """histogram2d call. exact lane: linear axes, four explicit dyadic limits."""
     res = r.choice(RES)
     nl = r.choice([0, 1, 2, 3])
